@@ -14,7 +14,7 @@ CHECKS = {
    note="Trusted: TLC, synctest; per-priority order is observed at a single reader.",
    technique="TLA+ spec + TLC invariants; gated replay; TLC monitor on recorded traces"),
  "C05": dict(engine="priority-engine", cat="model_checking", design="§5 C05, §4.2",
-   text="Saturated configurations of the specification (infinite supply): TLC enumerates every release order and grouping and checks the share invariants; every cover path is replayed with inputs topped up before each scheduler step and stalled; Mon_Prio decides per-priority in-flight <= share and exact shares at the stall point.",
+   text="Saturated configurations of the specification (infinite supply): TLC enumerates every release order and grouping and checks the share invariants; every cover path is replayed with inputs topped up before each scheduler step and stalled; Mon_Prio decides per-priority in-flight <= share and exact shares at the stall point. v1: gated saturated recorder (inputs filled before New and topped up before every scheduler step, gated stall), traces validated against PrioV1, shares from the real v1 divider.",
    note="Trusted: TLC, synctest; share = real divider(all priorities, H). Bounded configurations.",
    technique="TLA+ saturated spec + TLC; gated replay with stall continuation; TLC monitor"),
  "C06": dict(engine="priority-engine", cat="model_checking", design="§5 C06, §4.2",
@@ -30,7 +30,7 @@ CHECKS = {
    note="Trusted: TLC, synctest. One fault per behaviour; bounded configurations.",
    technique="TLA+ fault-budget spec + TLC; gated replay with fault injection; TLC validation of recorded divider calls"),
  "C16": dict(engine="priority-engine", cat="fault_enumeration", design="§5 C16, §4.2, §6 F3/F5",
-   text="Fault model: Stop()/cancel injected at any point. TLC checks (stop or cancel requested) ~> terminated on PrioV1 under scheduler fairness only, with a regression twin (the loop of the pinned tree must show the F3 lasso); on the real v1 priority, simplified priority and join disciplines seeded gated schedules inject Stop/cancel at random steps (handlers silent, consumer not reading, release never sent) and Mon_Prio / the join monitor decide that the call returns by the virtual deadline, nothing is written afterwards, no Handle runs, deliveries are an in-order duplicate-free subsequence; a spinning scheduler is caught by a wall-clock watchdog with a goroutine dump.",
+   text="Fault model: Stop()/cancel injected at any point. TLC checks (stop or cancel requested) ~> terminated on PrioV1 under scheduler fairness only, with a regression twin (the loop of the pinned tree must show the F3 lasso); on the real v1 priority, simplified priority and join disciplines seeded gated schedules inject Stop/cancel at random steps (handlers silent, consumer not reading, release never sent) and Mon_Prio / the join monitor decide that the call returns by the virtual deadline, nothing is written afterwards, no Handle runs, deliveries are an in-order duplicate-free subsequence; a second Stop()/GracefulStop() overlapping the first is judged like the first when it returns; termination from point zero (already cancelled context); a spinning scheduler is caught by a wall-clock watchdog with a goroutine dump. SimpleV1.tla (main, deferred chain, gracefulStop helper, handlers) is model-checked with regression twins and bound by trace validation with silent steps.",
    note="Trusted: TLC liveness, synctest virtual time, the watchdog's reading of the goroutine dump. Random schedules, not a transition cover, on the v1 code.",
    technique="TLA+ liveness without environment fairness (TLC) + regression twin; seeded gated schedules on real code judged by TLA+ monitors"),
  "C17": dict(engine="priority-engine", cat="model_checking", design="§5 C17, §4.2",
@@ -67,7 +67,7 @@ CHECKS.update({
  "C03": _join("TLC checks the concatenation/size invariants (ghost viol set inside the send action) of the explicit-time Join/Unite specifications in the free, urgent and ready regimes; TLC-enumerated and seeded timed schedules are replayed lock-step into the real v2 join, v2 unite and v1 join (copy and no-copy) in synctest bubbles; every recorded trace is validated against the trace specification (conformance) and judged by Mon_Join: concatenation of received slices = written sequence, no empty slice, size rules."),
  "C08": _join("Memory-ownership model (mem identities, owner) in Join/Unite checked by TLC; a retaining, scribbling consumer keeps every delivered slice, re-reads it after each later step and overwrites copy-mode slices; v1 Stop/cancel injected between delivery and release; Mon_Join decides: retained contents unchanged, copy-mode outputs never alias, no output between a no-copy delivery and its release."),
  "C09": _join("TLC checks 'short => timeout or final' inside the send action and the greedy reference batching in untimed configurations; the real code is driven with exact virtual timestamps; Mon_Join decides greedy batching (untimed) and delivered-no-earlier-than-Timeout-after-the-previous-delivery for short non-final slices; all unite length sequences over {0,1,J-1,J,J+1} up to the bound."),
- "C10": _join("TLC checks the age bound T + T div Div of the oldest buffered element in the urgent-with-ready-consumer regime; lock-step traces with a ready consumer (virtual clock, zero scheduling latency) for several inaccuracies and timeouts; Mon_Join decides deliveredAt - acceptedAt <= Timeout*(1+1/floor(100/inaccuracy))."),
+ "C10": _join("TLC checks the age bound T + T div Div of the oldest buffered element in the urgent-with-ready-consumer regime; lock-step traces with a ready consumer (virtual clock, zero scheduling latency) for several inaccuracies and timeouts; Mon_Join decides deliveredAt - acceptedAt <= Timeout*(1+1/floor(100/inaccuracy)); directed schedules at the acceptance boundary of the constructors and with writes landing exactly at tick instants."),
  "C11": _join("Unite specification with slice-valued input: TLC checks that every non-empty input slice lies wholly in one output slice, empty ones leave no trace, oversize slices are outputs of their own after the flush; all sequences of slice lengths over {0,1,J-1,J,J+1} replayed into the real unite; Mon_Join decides on the recorded boundaries."),
 })
 
@@ -78,7 +78,7 @@ def _limit(prop_text):
 
 CHECKS.update({
  "C04": _limit("TLC checks the structural invariants (batch starts >= Interval apart, <= Quantity per batch) and, in a tiny configuration with the full emission history, the cumulative and pairwise window formulas; an edge cover of the state graph plus seeded profiles (prefilled, trickle, stall-then-burst, slow consumer, 40+ intervals) are replayed lock-step into the real limit discipline; Mon_Limit applies the cumulative and the all-pairs window formula to the exact virtual emission instants."),
- "C12": _limit("TLC checks order/losslessness, closed => everything forwarded, inClosed ~> outClosed under fairness (with vacuity twins) and the exact schedule with everything available up-front; Mon_Limit decides on recorded traces: received = written prefix, closes only after the input closed and everything was forwarded, closes by the virtual deadline, element j at exactly (j div Q)*I with a ready consumer, fewer than Quantity elements without any pause."),
+ "C12": _limit("TLC checks order/losslessness, closed => everything forwarded, inClosed ~> outClosed under fairness (with vacuity twins) and the exact schedule with everything available up-front; Mon_Limit decides on recorded traces: received = written prefix, closes only after the input closed and everything was forwarded, closes by the virtual deadline, element j at exactly (j div Q)*I with a ready consumer, fewer than Quantity elements without any pause, and for every arrival pattern element j > Q leaves no later than max(written, element j-1 left, element j-Q left + Interval)."),
 })
 
 REASON_PENDING = "check under construction in this session (engine not registered yet); see DESIGN.md §5"
